@@ -105,8 +105,17 @@ HsCase(k) ==
   <<SegH("c", TRUE, FALSE, x, P(10, 1000), T0, pp[1], pp[2]), SegH("s", TRUE, TRUE, x % 128, P(20, 500), T0 + 5, pp[1], pp[2]),
     SegH("c", TRUE, FALSE, x, P(10, 1100), T0 + 1000, pp[1], pp[2]), SegH("s", TRUE, TRUE, x % 128, P(20, 1500), T0 + 1005, pp[1], pp[2])>>
 
-CaseOf(k) == CASE Fam = "hsflags" -> HsCase(k) [] Fam = "role" -> RoleCase(k) [] Fam = "freq" -> FreqCase(k) [] Fam = "both" -> BothCase(k) [] Fam = "bad" -> BadCase(k) [] Fam = "back" -> BackCase(k)
-NOf == CASE Fam = "hsflags" -> NHs [] Fam = "role" -> NRole [] Fam = "freq" -> NFreq [] Fam = "both" -> NBoth [] Fam = "bad" -> NBad [] Fam = "back" -> NBack
+\* zero: the first sample of an endpoint carries the timestamp value 0 (a clock that just started or wrapped; stacks that send 0 in
+\* the SYN) or 1 or the largest value; a steady clock afterwards is estimated like any other
+ZeroFirst == <<P(0, 0), P(0, 1), P(65535, 65535), P(65535, 65534)>>
+ZeroRates == <<<<1000, 1000>>, <<500, 50>>, <<2000, 500>>>>       \* <<interval ms, ticks>>: 1000 Hz, 100 Hz, 250 Hz
+NZero == Len(ZeroFirst) * Len(ZeroRates)
+ZeroCase(k) ==
+  LET f == ZeroFirst[(k % Len(ZeroFirst)) + 1]  r == ZeroRates[(k \div Len(ZeroFirst)) + 1] IN
+  <<Seg("c", TRUE, FALSE, f, T0), Seg("s", TRUE, TRUE, f, T0 + 3), Seg("c", FALSE, TRUE, Add32(f, r[2]), T0 + r[1]), Seg("s", FALSE, TRUE, Add32(f, r[2]), T0 + 3 + r[1])>>
+
+CaseOf(k) == CASE Fam = "zero" -> ZeroCase(k) [] Fam = "hsflags" -> HsCase(k) [] Fam = "role" -> RoleCase(k) [] Fam = "freq" -> FreqCase(k) [] Fam = "both" -> BothCase(k) [] Fam = "bad" -> BadCase(k) [] Fam = "back" -> BackCase(k)
+NOf == CASE Fam = "zero" -> NZero [] Fam = "hsflags" -> NHs [] Fam = "role" -> NRole [] Fam = "freq" -> NFreq [] Fam = "both" -> NBoth [] Fam = "bad" -> NBad [] Fam = "back" -> NBack
 
 \* the address family does not matter to the estimate, its attribution or its label: odd cases travel over IPv6
 VerOf(k) == IF k % 2 = 1 THEN 6 ELSE 4
